@@ -133,10 +133,14 @@ pub struct Policy {
     pub preempt_pm: u16,
     /// allow spurious wake injection at nested points
     pub spurious: bool,
+    /// starve one task: (task id, per-mille chance per step that it may run anyway). A task that
+    /// is held back for long stretches is how rare races between a background task (an accept
+    /// handshake, a reader) and many foreground operations are reached
+    pub starve: Option<(usize, u16)>,
 }
 impl Default for Policy {
     fn default() -> Self {
-        Policy { head_pct: 100, preempt_pm: 0, spurious: false }
+        Policy { head_pct: 100, preempt_pm: 0, spurious: false, starve: None }
     }
 }
 
@@ -323,8 +327,26 @@ impl Sim {
             }
             let pol = rt.policy.get();
             let idx = {
+                // generation-time shaping only: the tape records the resulting queue index
+                let allowed: Option<Vec<usize>> = match pol.starve {
+                    Some((victim, _)) => {
+                        let q = rt.runq.lock().unwrap();
+                        let a: Vec<usize> = q.iter().enumerate().filter(|(_, c)| **c != Choice::Task(victim)).map(|(i, _)| i).collect();
+                        if a.is_empty() || a.len() == q.len() {
+                            None
+                        } else {
+                            Some(a)
+                        }
+                    }
+                    None => None,
+                };
                 let mut tapes = rt.tapes.borrow_mut();
                 tapes[Stream::Sched as usize].draw_with(n as u64, |r| {
+                    if let (Some(a), Some((_, release_pm))) = (&allowed, pol.starve) {
+                        if r.below(1000) >= release_pm as u64 {
+                            return if pol.head_pct >= 100 || r.below(100) < pol.head_pct as u64 { a[0] as u64 } else { a[r.below(a.len() as u64) as usize] as u64 };
+                        }
+                    }
                     if pol.head_pct >= 100 || r.below(100) < pol.head_pct as u64 {
                         0
                     } else {
